@@ -11,7 +11,7 @@ CASE_TIMEOUT = 10
 NREGS = 3
 RULE = ('cases: histories of 1-12 public table operations over 3 registers (constructors from records / keyword or dict columns '
         'with scalars / rows+headers / header-row form; d[k]=v, del d[k]; d[i], d[k], d[i][k] vs d[k][i], d[k1,k2], d[callable], list(d); '
-        'slices incl. negative bounds, bool masks, int lists, column lists; d(k=value|callable); relabel prefix/suffix/map; do; '
+        'slices incl. negative bounds and steps (negative too), range indices (ascending, descending down to row 0, stepped, empty, out of range), bool masks, int lists, column lists; d(k=value|callable); relabel prefix/suffix/map; do; '
         'dictable.concat of 0-3 tables, d+None, d+0, 0+d, d+d, d+record; copy) on tables of 0-5 rows x 0-4 columns incl. empty tables and '
         'columns without rows, cells None/int/float/NaN objects/str/datetime; a separate malformed stream (misfit lengths, missing keys, '
         'out-of-range indices, ragged rows, wrong-length masks); plus every single op on every table with <= 2 rows x <= 2 columns over two '
@@ -93,7 +93,8 @@ def op_coq(o):
     if k == 'tuple': return 'OTuple %s %s' % (nat(o['r']), clist(qs(n) for n in o['names']))
     if k == 'apply': return 'OApply %s %s' % (nat(o['r']), rowfn_coq(o['f']))
     if k == 'iter': return 'OIter %s' % nat(o['r'])
-    if k == 'slice': return 'OSlice %s %s %s %s' % (nat(o['dst']), nat(o['r']), optz(o['a']), optz(o['b']))
+    if k == 'slice': return 'OSlice %s %s %s %s %s' % (nat(o['dst']), nat(o['r']), optz(o['a']), optz(o['b']), optz(o.get('s')))
+    if k == 'range': return 'ORange %s %s (%d) (%d) (%d)' % (nat(o['dst']), nat(o['r']), o['a'], o['b'], o['s'])
     if k == 'mask': return 'OMask %s %s %s' % (nat(o['dst']), nat(o['r']), clist('true' if b else 'false' for b in o['m']))
     if k == 'ints': return 'OInts %s %s %s' % (nat(o['dst']), nat(o['r']), clist('(%d)' % i for i in o['idx']))
     if k == 'proj': return 'OProj %s %s %s' % (nat(o['dst']), nat(o['r']), clist(qs(n) for n in o['names']))
@@ -228,7 +229,14 @@ def ref_step(o, get, conv):
     if k == 'iter':
         return 'out', (NOCLAIM if t is None else t.rows)
     if t is None and k not in ('concat',): return 'new', None
-    if k == 'slice': return 'new', Ref(t.cols, [dict(r) for r in t.rows[slice(o['a'], o['b'])]])
+    if k == 'slice':
+        if o.get('s') == 0: return 'new', None
+        return 'new', Ref(t.cols, [dict(r) for r in t.rows[slice(o['a'], o['b'], o.get('s'))]])
+    if k == 'range':
+        if o['s'] == 0: return 'new', None
+        idx = list(range(o['a'], o['b'], o['s']))          # d[range(...)] selects those rows, in that order
+        if any(not -len(t.rows) <= i < len(t.rows) for i in idx): return 'new', None
+        return 'new', Ref(t.cols, [dict(t.rows[i]) for i in idx])
     if k == 'mask':
         if len(o['m']) != len(t.rows): return 'new', None
         return 'new', Ref(t.cols, [dict(r) for r, tf in zip(t.rows, o['m']) if tf])
@@ -379,7 +387,8 @@ def impl(case):
             elif k == 'tuple': out = regs[o['r']][tuple(o['names'])]
             elif k == 'apply': out = regs[o['r']][mk_rowfn(o['f'])]
             elif k == 'iter': out = list(regs[o['r']])
-            elif k == 'slice': result = regs[o['r']][slice(o['a'], o['b'])]
+            elif k == 'slice': result = regs[o['r']][slice(o['a'], o['b'], o.get('s'))]
+            elif k == 'range': result = regs[o['r']][range(o['a'], o['b'], o['s'])]
             elif k == 'mask': result = regs[o['r']][list(o['m'])]
             elif k == 'ints': result = regs[o['r']][list(o['idx'])]
             elif k == 'proj': result = regs[o['r']][list(o['names'])]
@@ -532,7 +541,7 @@ def gen_op(rng, shadow, malformed):
         if t is None or (t.rows and t.cols) or rng.random() < 0.25: break
         r = rng.randrange(NREGS); t = shadow(r)
     n = len(t.rows) if t is not None else rng.randrange(4)
-    kind = rng.choice(['new', 'new', 'set', 'set', 'set', 'del', 'getrow', 'getcol', 'cell', 'cell', 'tuple', 'apply', 'iter', 'slice', 'slice', 'mask', 'mask',
+    kind = rng.choice(['new', 'new', 'set', 'set', 'set', 'del', 'getrow', 'getcol', 'cell', 'cell', 'tuple', 'apply', 'iter', 'slice', 'slice', 'range', 'range', 'mask', 'mask',
                        'ints', 'ints', 'proj', 'call', 'call', 'relabel', 'do', 'concat', 'concat', 'add', 'add', 'copy'])
     if kind == 'new': return gen_new(rng, dst, malformed)
     if kind == 'set':
@@ -552,7 +561,17 @@ def gen_op(rng, shadow, malformed):
     if kind == 'iter': return {'op': 'iter', 'r': r}
     if kind == 'slice':
         b = lambda: rng.choice([None, rng.randrange(-n - 2, n + 3)])
-        return {'op': 'slice', 'dst': dst, 'r': r, 'a': b(), 'b': b()}
+        st = rng.choice([None, None, None, 1, 2, -1, -1, -2, 3, -3] + ([0] if malformed else []))
+        return {'op': 'slice', 'dst': dst, 'r': r, 'a': b(), 'b': b(), 's': st}
+    if kind == 'range':
+        q = rng.random()
+        if q < 0.25: a, bb, st = rng.randrange(0, n + 1), rng.randrange(0, n + 1), rng.choice([1, 1, 2, 3])            # ascending (maybe empty)
+        elif q < 0.6: a, bb, st = rng.randrange(0, max(n, 1)), -1, rng.choice([-1, -1, -2, -3])                      # descending, reaching row 0
+        elif q < 0.8: a, bb, st = rng.randrange(0, max(n, 1)), rng.randrange(-1, max(n, 1)), rng.choice([-1, -2])      # descending
+        elif q < 0.9: a, bb, st = rng.randrange(-n - 1, n + 2), rng.randrange(-n - 1, n + 2), rng.choice([1, -1, 2, -2])  # negative / out-of-range members
+        else: a, bb, st = 0, n, 1
+        if malformed and rng.random() < 0.15: st = 0
+        return {'op': 'range', 'dst': dst, 'r': r, 'a': a, 'b': bb, 's': st}
     if kind == 'mask':
         q = rng.random()
         m = n if not malformed and q < 0.9 else rng.choice([0, 1, n, n + 1, 2])
@@ -596,6 +615,22 @@ def gen_op(rng, shadow, malformed):
         return {'op': 'add', 'dst': dst, 'r': r, 'a': a, 'radd': rng.random() < 0.3}
     return {'op': 'copy', 'dst': dst, 'r': r}
 
+def gen_probe(rng, t, r, dst):
+    """an op whose result has the operand's content (all-True mask, full slice / range / int list, all columns, no-op relabel / do, copy,
+    + empty record); followed by an in-place edit of the result and a re-inspection of the operand: catches results that ARE the operand"""
+    n = len(t.rows) if t is not None else 0; cols = list(t.cols) if t is not None else []
+    k = rng.choice(['mask', 'mask', 'mask', 'slice', 'range', 'ints', 'proj', 'relabel', 'do', 'copy', 'addrec', 'call'])
+    if k == 'mask': return {'op': 'mask', 'dst': dst, 'r': r, 'm': [True] * n}
+    if k == 'slice': return {'op': 'slice', 'dst': dst, 'r': r, 'a': rng.choice([None, 0, -n]), 'b': rng.choice([None, n]), 's': rng.choice([None, 1])}
+    if k == 'range': return {'op': 'range', 'dst': dst, 'r': r, 'a': 0, 'b': n, 's': 1}
+    if k == 'ints': return {'op': 'ints', 'dst': dst, 'r': r, 'idx': list(range(n))}
+    if k == 'proj' and cols: return {'op': 'proj', 'dst': dst, 'r': r, 'names': cols}
+    if k == 'relabel': return {'op': 'relabel', 'dst': dst, 'r': r, 'sp': ['map', []]}
+    if k == 'do': return {'op': 'do', 'dst': dst, 'r': r, 'f': ['ident'], 'ks': rng.choice([None, []])}
+    if k == 'addrec': return {'op': 'add', 'dst': dst, 'r': r, 'a': {'rec': []}, 'radd': False}
+    if k == 'call' and cols: return {'op': 'call', 'dst': dst, 'r': r, 'key': cols[0], 'arg': {'f': ['ident', cols[0]]}}
+    return {'op': 'copy', 'dst': dst, 'r': r}
+
 def gen_history(rng, length, malformed):
     """the generator follows the list-of-records reference to produce mostly meaningful ops"""
     global FRESH
@@ -603,9 +638,17 @@ def gen_history(rng, length, malformed):
     heap = [Ref([], []) for _ in range(NREGS)]; regs = list(range(NREGS))
     get = lambda r: heap[regs[r]]
     conv = lambda c: c if not isinstance(c, dict) else json.dumps(c, sort_keys=True)     # cells only need to be carried here
-    ops = []
+    ops = []; pending = []
     for i in range(length):
-        o = gen_new(rng, rng.randrange(NREGS), False) if i == 0 and rng.random() < 0.8 else gen_op(rng, get, malformed and rng.random() < 0.4)
+        if pending: o = pending.pop(0)
+        elif i > 0 and i + 2 < length and rng.random() < 0.12:
+            r = rng.randrange(NREGS); dst = rng.choice([x for x in range(NREGS) if x != r]); t = get(r)
+            o = gen_probe(rng, t, r, dst)
+            edit = {'op': 'set', 'r': dst, 'key': rng.choice((list(t.cols) if t is not None and t.cols else []) + ['z']), 'v': {'S': rcell(rng)}} if rng.random() < 0.7 \
+                else {'op': 'del', 'r': dst, 'key': rng.choice(list(t.cols) if t is not None and t.cols else ['z'])}
+            pending = [edit, {'op': rng.choice(['iter', 'iter', 'getrow']), 'r': r, 'i': 0}]
+        else:
+            o = gen_new(rng, rng.randrange(NREGS), False) if i == 0 and rng.random() < 0.8 else gen_op(rng, get, malformed and rng.random() < 0.4)
         ops.append(o)
         try:
             kind, exp = ref_step(o, get, conv)
@@ -649,7 +692,12 @@ def single_ops(names, nrows):
     for i in range(-3, 3): yield {'op': 'getrow', 'r': r, 'i': i}
     yield {'op': 'iter', 'r': r}
     for a in (None, -3, -1, 0, 1, 2, 3):
-        for b in (None, -3, -1, 0, 1, 2, 3): yield {'op': 'slice', 'dst': dst, 'r': r, 'a': a, 'b': b}
+        for b in (None, -3, -1, 0, 1, 2, 3):
+            yield {'op': 'slice', 'dst': dst, 'r': r, 'a': a, 'b': b, 's': None}
+            for st in (-1, 2, -2): yield {'op': 'slice', 'dst': dst, 'r': r, 'a': a, 'b': b, 's': st}
+    for a in range(-1, 4):
+        for b in range(-2, 4):
+            for st in (1, -1, 2, -2): yield {'op': 'range', 'dst': dst, 'r': r, 'a': a, 'b': b, 's': st}
     for m in range(4):
         for bits in itertools.product([False, True], repeat=m): yield {'op': 'mask', 'dst': dst, 'r': r, 'm': list(bits)}
     for idx in ([], [0], [1], [-1], [-2], [2], [-3], [0, 0], [1, 0], [0, 1, 0], [-1, -2]): yield {'op': 'ints', 'dst': dst, 'r': r, 'idx': idx}
